@@ -19,21 +19,33 @@ WEIGHTS = {"setparent": 3, "set": 3, "attr": 3, "mods": 1, "symx": 1}
 EXTRA_POOL = {"IR": 1, "Module": 1, "Section": 1, "ByteInterval": 1, "CodeBlock": 1, "DataBlock": 1, "ProxyBlock": 1, "Symbol": 2}
 
 
-def observe_all(ctx, h, rng, sig, nq=10):
-    """every observation kind once; returns False at the first oracle problem"""
-    h.observe_forest()
-    bad = world.oracle_forest(h.w)
-    if bad:
-        h.problems.append((len(h.items) - 1, bad))
-        ctx.add("oracle", sig + ":forest", "%s" % "; ".join(bad[:3]), {"items": h.items, "problems": bad[:8]})
-        return False
-    h.observe_aggregates()
-    h.observe_cache()
-    bad = world.oracle_cache(h.w, h.uuids)
-    if bad:
-        h.problems.append((len(h.items) - 1, bad))
-        ctx.add("oracle", sig + ":uuid-table", "%s" % "; ".join(bad[:3]), {"items": h.items, "problems": bad[:8]})
-        return False
+def observe_all(ctx, h, rng, sig, nq=10, what=None):
+    """the observations `what` names (default: all), once; returns False at the first oracle problem.
+    Each property's check looks only at what ITS property speaks about, so that a defect of one property does not alarm the
+    checks of the others through this stream."""
+    what = what or {"forest", "aggregates", "cache", "symbols", "symx", "queries"}
+    methods = [m for m in ALL_METHODS if what & {"queries", m}] if "queries" not in what else ALL_METHODS
+    if "forest" in what:
+        h.observe_forest()
+        bad = world.oracle_forest(h.w)
+        if bad:
+            h.problems.append((len(h.items) - 1, bad))
+            ctx.add("oracle", sig + ":forest", "%s" % "; ".join(bad[:3]), {"items": h.items, "problems": bad[:8]})
+            return False
+    if "aggregates" in what:
+        h.observe_aggregates()
+    if "cache" in what:
+        h.observe_cache()
+        bad = world.oracle_cache(h.w, h.uuids)
+        if bad:
+            h.problems.append((len(h.items) - 1, bad))
+            ctx.add("oracle", sig + ":uuid-table", "%s" % "; ".join(bad[:3]), {"items": h.items, "problems": bad[:8]})
+            return False
+    if "symx" in what:
+        for bn in h.by_kind["ByteInterval"]:
+            h.emit([46, bn])
+    if "symbols" not in what:
+        return lookups.judged_queries(ctx, h, rng, methods, nq, sig) if methods else True
     for m in h.by_kind["Module"]:
         for nm in sorted(h.w.names):
             it = [41, m, nm]
@@ -49,12 +61,10 @@ def observe_all(ctx, h, rng, sig, nq=10):
         if bad:
             ctx.add("oracle", sig + ":references", "lookup %s: %s" % (it, "; ".join(bad[:2])), {"items": h.items, "problems": bad[:6]})
             return False
-    for bn in h.by_kind["ByteInterval"]:
-        h.emit([46, bn])
-    return lookups.judged_queries(ctx, h, rng, ALL_METHODS, nq, sig)
+    return lookups.judged_queries(ctx, h, rng, methods, nq, sig) if methods else True
 
 
-def loaded_history(ctx, g, rng, bs, length, sig):
+def loaded_history(ctx, g, rng, bs, length, sig, what=None):
     """returns the Hist (or None when the file is rejected)"""
     try:
         ir = g.IR.load_protobuf_file(io.BytesIO(bs))
@@ -69,16 +79,17 @@ def loaded_history(ctx, g, rng, bs, length, sig):
     n_adopted = len(h.all_nodes())
     ctx.count("adopted_nodes", n_adopted)
     h.setup_pool()
-    if not observe_all(ctx, h, rng, sig + ":as-loaded"):
+    methods = [m for m in ALL_METHODS if (what is None or "queries" in what or m in what)]
+    if not observe_all(ctx, h, rng, sig + ":as-loaded", what=what):
         return h
     for _ in range(length):
         if rng.random() < 0.1:
             lookups.burst(h, rng)
         else:
             lookups.edit_step(h, rng, WEIGHTS)
-        if rng.random() < 0.3 and not lookups.judged_queries(ctx, h, rng, ALL_METHODS, 3, sig + ":edited"):
+        if methods and rng.random() < 0.3 and not lookups.judged_queries(ctx, h, rng, methods, 3, sig + ":edited"):
             return h
-    observe_all(ctx, h, rng, sig + ":edited")
+    observe_all(ctx, h, rng, sig + ":edited", what=what)
     return h
 
 
@@ -105,10 +116,11 @@ def files(ctx, g, rng, n, cov=None):
     return out
 
 
-def stream(ctx, g, rng, n, length, sig):
+def stream(ctx, g, rng, n, length, sig, what=None):
+    """what: subset of {forest, aggregates, cache, symbols, symx, queries} and/or lookup method names (see world.QUERY_M)"""
     hs = []
     for origin, bs in files(ctx, g, rng, n):
-        h = loaded_history(ctx, g, rng, bs, length, sig)
+        h = loaded_history(ctx, g, rng, bs, length, sig, what)
         if h is None:
             ctx.count("loaded_history:file_rejected:" + origin)
             continue
